@@ -1292,7 +1292,11 @@ Octagonal_Shape<T>::is_disjoint_from(const Octagonal_Shape& y) const {
       }
     }
   }
-  return false;
+  // The test above is only sufficient: the contradiction may need
+  // constraints of both shapes along a longer cycle.
+  Octagonal_Shape z(*this);
+  z.intersection_assign(y);
+  return z.is_empty();
 }
 
 template <typename T>
